@@ -49,9 +49,13 @@ def _gcc(src):
     return r.stderr[:300] if m else None
 
 
-def derive(ctx, label, fuel, simulate=None, depth=None, seed=None):
+ALL_ROOTS = ["tu", "ext", "item", "exprstmt", "init", "struct", "param", "typename"]
+
+
+def derive(ctx, label, fuel, simulate=None, depth=None, seed=None, roots=None):
     exports = []
-    res = tlc("CGram", "CONSTANT Fuel = %d\nINIT Init\nNEXT Next\nINVARIANT Export\nCHECK_DEADLOCK FALSE\n" % fuel,
+    res = tlc("CGram", "CONSTANTS Fuel = %d\nRootSet = {%s}\nINIT Init\nNEXT Next\nINVARIANT Export\nCHECK_DEADLOCK FALSE\n" % (
+        fuel, ",".join('"%s"' % r for r in (roots or ALL_ROOTS))),
               on_export=exports.append, simulate=simulate, depth=depth, seed=seed, timeout=3000,
               workers=8 if simulate else None)
     tlc_ok(res, "CGram " + label)
@@ -84,6 +88,12 @@ def run(tier):
     progs = derive(ctx, "fuel<=2 (all production pairs)", 2)
     replay_programs(ctx, progs, "fuel<=2")
     allp = list(progs)
+    if tier == "quick":
+        # every triple of productions in the declaration sub-language (parameter declarations, type names, members)
+        p3d = derive(ctx, "fuel<=3 from the roots param / typename / struct (all production triples)", 3,
+                     roots=["param", "typename", "struct"])
+        replay_programs(ctx, p3d, "fuel<=3 declaration roots")
+        allp += rnd.sample(p3d, 5000)
     if tier == "thorough":
         p3 = derive(ctx, "fuel<=3 (all production triples)", 3)
         replay_programs(ctx, p3, "fuel<=3")
@@ -92,6 +102,17 @@ def run(tier):
                  simulate=1500 if tier == "quick" else 40000, depth=400, seed=ctx.seed + 5)
     replay_programs(ctx, sim, "simulated")
     allp += sim
+    # the same programs far from the start of the input (see harness/longunit.py)
+    from .. import longunit
+    snippets = [text_of(e["toks"]) for e in rnd.sample(allp, min(len(allp), 8000 if tier == "quick" else 80000))]
+    units = longunit.make_units(snippets, rnd, 160 if tier == "quick" else 1500)
+    n = 0
+    for cnt, bad in pmap(longunit.check_unit, [("", u) for u in units], chunk=2):
+        n += cnt
+        for sig, text in bad:
+            ctx.fail("long unit: " + sig, dict(kind="unit", text=text))
+    ctx.count(len(units), nontrivial=len(units), traces=n)
+    ctx.note("long_units", dict(units=len(units), programs=n))
     for e in rnd.sample(allp, 3):
         ctx.sample(dict(text=text_of(e["toks"]), productions=e["feat"]))
     # spec validation against gcc (never a VIOLATION)
@@ -115,6 +136,16 @@ def run(tier):
 
 def replay(path):
     r = json.load(open(path))["replay"]
+    if r.get("kind") == "unit":
+        from pycparser import c_parser
+        try:
+            c_parser.CParser().parse(r["text"], "u.c")
+            print("replay: the unit is accepted; compare its parts by re-running the check")
+            return 0
+        except Exception as e:
+            print("VIOLATION property=C01 replay=%s" % path)
+            print("  what: unit rejected:", e)
+            return 1
     n, bad = _work([dict(toks=r["toks"], feat=r["feat"])])
     for e, sig, src in bad:
         print("VIOLATION property=C01 replay=%s" % path)
